@@ -2,8 +2,9 @@
      mux.go      state, clone, appendHandler, removeHandler, addConnHandler (hash short-cut,
                  drop-and-recreate), processFile, DropConn, RegisterConn, pickMethodHandler, match
      handler.go  registerService
-     rules.go    addRule (only its effect on the binding map: duplicate check with the '*'
-                 fall-back, "already registered" short-cut that skips additional bindings), delRule
+     rules.go    addRule (only its effect on the binding map: the duplicate check -- bindings that meet,
+                 i.e. same verb or a "*" on either side, belong to one method -- and "already registered"),
+                 delRule
    The routing trie is abstract here: a finite map from binding keys (node of the template, HTTP verb;
    verb 0 is the kind "*", stored in methodAll) to method names.  Template lexing, variables and
    path search are modelled elsewhere; a template that addRule rejects for a reason of its own
@@ -41,13 +42,35 @@ Definition t_find (t : trie) (n v : nat) : option method :=
 Definition t_lookup (t : trie) (n v : nat) : option method :=
   match t_find t n v with Some m => Some m | None => t_find t n 0 end.
 
-(* addRule for one pattern: Ok (t', true) = bound now, Ok (t, false) = "Method already registered" *)
+(* addRule for one pattern, the end of it at the node the template leads to (rules.go; Model/Trie.v leaf):
+     conflict(cursor.methodAll)                           the "*" binding of another method: duplicate rule
+     verb "*":  any cursor.methods[..] of another method: duplicate rule;
+                methodAll set (same method):              "Method already registered"
+     verb v:    methods[v] of another method:             duplicate rule;  of this method: already registered
+     otherwise the binding is stored -- also a verb key at a node where the method holds "*" already.
+   Ok (t', true) = stored now, Ok (t, false) = "Method already registered".
+   (Until the refinement proof of Proofs/RefineProofs.v this was: refuse iff t_lookup finds another method,
+   "already registered" iff it finds this one -- which accepted a "*" key over another method's verb binding
+   and did not record a verb key below the method's own "*"; see RefineProofs.refine_add_refuted,
+   refine_add_state_refuted about AbsTrie.a_add_loose.) *)
+Definition t_other (x : option method) (m : method) : bool :=
+  match x with Some m' => negb (m' =? m) | None => false end.
+(* every binding of node n belongs to m *)
+Definition t_owned (t : trie) (n : nat) (m : method) : bool :=
+  forallb (fun e => negb (fst (fst e) =? n) || (snd e =? m)) t.
 Definition t_add (t : trie) (k : bkey) (m : method) : outcome (trie * bool) :=
-  if negb (kvalid k) then Err EInvalid else
-  match t_lookup t (knode k) (kverb k) with
-  | Some m' => if m' =? m then Ok (t, false) else Err EInvalid          (* duplicate rule *)
-  | None => Ok ((knode k, kverb k, m) :: t, true)
-  end.
+  if negb (kvalid k) then Err EInvalid
+  else if t_other (t_find t (knode k) 0) m then Err EInvalid
+  else if kverb k =? 0 then
+    if negb (t_owned t (knode k) m) then Err EInvalid
+    else match t_find t (knode k) 0 with
+         | Some _ => Ok (t, false)
+         | None => Ok ((knode k, kverb k, m) :: t, true)
+         end
+  else match t_find t (knode k) (kverb k) with
+       | Some m' => if m' =? m then Ok (t, false) else Err EInvalid
+       | None => Ok ((knode k, kverb k, m) :: t, true)
+       end.
 Fixpoint t_add_all (t : trie) (ks : list bkey) (m : method) : outcome trie :=
   match ks with
   | [] => Ok t
